@@ -667,6 +667,35 @@ func syntheticRsaPub(bits, e int) (crypto.PubKey, []byte, error) {
 	return pk, x509.MarshalPKCS1PublicKey(std), err
 }
 
+// c16WeakRsaSub: the same round trip for moduli below libp2p's default minimum, with the minimum lowered the way an
+// application (or LIBP2P_ALLOW_WEAK_RSA_KEYS) lowers it: every DER length form (one byte, 0x81, 0x82) occurs.
+func c16WeakRsaSub() *engine.Sub {
+	base := c16RsaSub()
+	run := base.Run
+	return &engine.Sub{
+		Name:   "rsa-keys-below-2048-bits-when-allowed",
+		Serial: true,
+		Rule:   "the round trip of rsa-keys-of-every-size for moduli of 512, 768, 1000, 1016, 1024, 1536, 1920, 1936, 1944, 1952 and 2040 bits (exponents 3 and 65537) while crypto.MinRsaKeyBits is lowered to 512 - what LIBP2P_ALLOW_WEAK_RSA_KEYS or an application does; the DER of such keys uses the short, the 0x81 and the 0x82 length forms in its different layers; non-trivial = all",
+		Bound:  func(string) string { return "11 modulus sizes x 2 exponents" },
+		Gen: func(tier string, emit func(any) bool) {
+			for _, bits := range []int{512, 768, 1000, 1016, 1024, 1536, 1920, 1936, 1944, 1952, 2040} {
+				for _, e := range []int{3, 65537} {
+					if !emit(&c16RsaCase{Bits: bits, E: e}) {
+						return
+					}
+				}
+			}
+		},
+		NewCase: base.NewCase,
+		Run: func(ctx *engine.Ctx, c any) {
+			old := crypto.MinRsaKeyBits
+			crypto.MinRsaKeyBits = 512
+			defer func() { crypto.MinRsaKeyBits = old }()
+			run(ctx, c)
+		},
+	}
+}
+
 func c16RsaSub() *engine.Sub {
 	return &engine.Sub{
 		Name:  "rsa-keys-of-every-size",
@@ -907,7 +936,7 @@ func C16() *engine.Check {
 	return &engine.Check{
 		Property: "C16",
 		Level:    "model_checking",
-		Subs:     []*engine.Sub{c16RoundtripSub(), c16RsaSub(), c16ManySub(), c16KeptSub(), c16CoercedSub(), c16AltSub(), c16StringsSub(), c16CodesSub(), c16PrefixSub(), c16ConcSub(), concRaceSub("C16")},
+		Subs:     []*engine.Sub{c16RoundtripSub(), c16RsaSub(), c16WeakRsaSub(), c16ManySub(), c16KeptSub(), c16GivenSub(), c16CoercedSub(), c16AltSub(), c16StringsSub(), c16CodesSub(), c16PrefixSub(), c16ConcSub(), concRaceSub("C16")},
 		Assumptions: []string{
 			"keys: committed fixtures plus one key per Generate* call per run; the conversion code has no key-dependent branches except leading-zero coordinates, which the 8 EC fixtures do not force",
 			"the canonical key material is computed independently: compressed SEC1 point for EC keys, raw 32 bytes for Ed25519, PKCS#1 DER for RSA",
